@@ -16,21 +16,25 @@ CLAIMED = {
          "Trusts go/ssa and the role tables (which callee is the membership test, which field is the enable flag). File-system behaviour is not modelled.",
          "DESIGN.md §3 C05"),
  "C06": ("path analysis over go/ssa with a closure summary (approval callback returns checkIntent's verdict unchanged), per-path counting of answer writes, def-use identity of the forwarded value, decision tables on the answer readers",
-         "Structural necessary conditions: every forward of an intent is preceded on its path by a nil approval of that same value (directly or through the handshake callback, which hopclient installs and whose failure is fatal); exactly one answer per request on every path; confirmations only after the target's accepted answer / after checkIntent and addAuthGrant returned nil.",
+         "Structural necessary conditions: every forward of an intent is preceded on its path by a nil approval of that same value (directly or through the handshake callback, which hopclient installs and whose failure is fatal); exactly one answer per request on every path, none for a request that failed to decode (which ends the conversation: the stream is unframed); confirmations only after the target's accepted answer / after checkIntent and addAuthGrant returned nil.",
          "Trusts go/ssa, the role tables (approval field, connection fields). What a user-supplied callback decides, and the ci==nil default, are outside the claim.",
          "DESIGN.md §3 C06"),
- "C07": ("decision-table path analysis with a time-order atom theory (Before/After/Equal normalised to < and >=), call-graph reachability of effect sinks from dispatched handlers, guarded-state must-dataflow (usingAuthGrant==false or checkCmd==nil), who-may-write",
-         "Structural necessary conditions: checkCmd honours a grant only with StartTime <= now < ExpTime, matching kind and identical command text on one element, and deletes it; every handler that sess.start dispatches and that reaches a process start / dial / listen / grant issuing is guarded for grant sessions; consumed grants take their key out of the transport key set; checkIntent is fail-closed.",
+ "C07": ("decision-table path analysis with a time-order atom theory (Before/After/Equal normalised to < and >=), call-graph reachability of effect sinks from dispatched handlers, guarded-state must-dataflow (grant gate false or checkCmd==nil; the gate may be a field or a method), who-may-write on the gate's inputs",
+         "Structural necessary conditions: checkCmd honours a grant only with StartTime <= now < ExpTime, matching kind and identical command text on one element, and deletes it; every handler that sess.start dispatches and that reaches a process start / dial / listen / grant issuing is guarded for grant sessions; whatever the gate is computed from is written only at admission (checkAuthorization); consumed grants take their key out of the transport key set; checkIntent is fail-closed.",
          "Trusts go/ssa, VTA call graph, the sink list (os/exec, pty, net.Dial*/Listen*, StartTargetInstance). Wall-clock behaviour between check and use is not decided.",
          "DESIGN.md §3 C07"),
- "C03": ("ordered-event path analysis on readPacketLocked (type, session id, Check, Open, Mark of the same counter), dominance with polarity in both handleSessionMessage functions, who-may-call/write (closeLocked, count, replay window), constant-slice associated-data regions, def-use provenance of packet bytes, induction-shape check of the Write chunk loop",
-         "Structural necessary conditions: no delivery, control handling, close or replay-window mark without a prior successful AEAD open of that datagram under the read key with the header+session id+counter as associated data; the counter checked is the counter marked; the send counter advances exactly once per seal under the session lock; Write's chunk loop starts at 0, steps by its chunk width, propagates errors and reports what it sent; plaintext flows only into Seal.",
-         "Trusts go/ssa and the role tables. The window algorithm (C14) and SANSE itself (C12) are not decided here. An unrecognised chunk-loop shape yields UNDECIDED, not a pass.",
+ "C03": ("ordered-event path analysis on readPacketLocked (type, session id, Check, Open, Mark of the same counter), dominance with polarity in both handleSessionMessage functions, who-may-call/write (closeLocked, count, replay window), constant-slice associated-data regions, def-use provenance of packet bytes, induction-shape check of the Write chunk loop, constant geometry of the replay ring read off Check and Mark",
+         "Structural necessary conditions: no delivery, control handling, close or replay-window mark without a prior successful AEAD open of that datagram under the read key with the header+session id+counter as associated data; the counter checked is the counter marked; the send counter advances exactly once per seal under the session lock; Write's chunk loop starts at 0, steps by its chunk width, propagates errors and reports what it sent; plaintext flows only into Seal; the replay ring's window, shift and masks are mutually consistent (a recycled block lies below the window).",
+         "Trusts go/ssa and the role tables. The window algorithm beyond its constant geometry (C14) and SANSE itself (C12) are not decided here. An unrecognised chunk-loop shape yields UNDECIDED, not a pass.",
          "DESIGN.md §3 C03"),
  "C02": ("path-sensitive region extraction over go/ssa (linear offsets of every absorbed / decrypted / decapsulated / MAC-compared view of the received buffer, copy mirrors with dirtiness, re-basing) with an exact tiling test against the reported length; branch facts in the callers for the exact-length test; event-sequence shape of deriveFinalKeys with constant-label comparison; who-may-write and call-site provenance for the per-handshake randomness",
          "Structural necessary conditions: on every success path of each of the seven live handshake readers the received bytes [0,n) are tiled exactly by ranges that enter the transcript before the last MAC comparison, n being the length reported; every accepting caller found that length equal to the datagram length; deriveFinalKeys is ratchet / distinct constant label / squeeze per direction, called with the same argument order at both ends, with mirrored read/write assignment; X25519 ephemerals are generated on every state-creating path and their key bytes written nowhere else, KEM operations draw from crypto/rand.Reader, session ids from crypto/rand.",
          "Trusts go/ssa; offsets are compared as linear forms (non-linear length arithmetic would be reported undecided). Equality of the derived key bytes, their unpredictability, and writer-side provenance / writer-reader sequence agreement (DESIGN R3, R4: any asymmetry there fails every handshake and is what the existing tests do catch) are not decided.",
          "DESIGN.md §3 C02"),
+ "C14": ("constant extraction from the SSA form of SlidingWindow.Check and SlidingWindow.Mark (window constant in the staleness comparison, shift, bit mask and index mask applied to the sequence number, length and element width of the block array; x % 2^k and x / 2^k normalised to mask and shift), arithmetic relations between them, sibling cross-check of the two functions",
+         "Structural necessary conditions of 'never lets a duplicate through': 2^shift equals the block width, bit mask = 2^shift - 1, the block count is a power of two, index mask = count - 1, window <= (count - 1) * block width (a block recycled by Mark lies wholly below the window), and Check and Mark use identical constants (the bit Mark sets is the bit Check tests; what Mark ignores as stale is what Check rejects).",
+         "Equivalence with a set-based filter over all counter histories is a functional statement and is not decided: the run-time arithmetic of Mark's clearing loop (which blocks are zeroed on a forward jump, the clamp to the ring size), wrap-around at 2^64, and 'never rejects a fresh in-window packet' beyond the geometry. An unrecognised shape yields UNDECIDED, not a pass.",
+         "DESIGN.md §3 C14"),
  "C15": ("who-may-write on SessionState.remoteAddr and the replay window, dominance with polarity (address store after readPacketLocked's nil edge), ordered-event path analysis of Handle.send (lock, seal, capture, write)",
          "Structural necessary conditions: the peer address has exactly four writers (two constructions, two post-authentication tails); the tail stores are dominated by a successful open+replay check of the datagram whose source they store; nothing else reads, copies or writes the replay window; the sender uses the address captured under the lock after sealing.",
          "Trusts go/ssa; C03.R1 supplies that readPacketLocked's success implies Check and Open. History-level roaming behaviour is not decided.",
@@ -39,8 +43,8 @@ CLAIMED = {
          "Structural necessary conditions: nothing reachable from the ClientHello arm writes server state; handshake state is stored only after the cookie opened and the ack MAC verified, with exact length; the cookie's AEAD authenticates a hash of the whole client key, the unmodified (or injectively transformed) IP and both port bytes, taken from this datagram, under the current cookie key; in hidden mode every reaction is under !IsHidden or after a verified hidden request with both timestamp tests.",
          "Trusts go/ssa, VTA restricted to package transport for the arm reachability, the injective-transformation allow-list (To16, String, MarshalText). Replays inside the timestamp window and timing are not decided.",
          "DESIGN.md §3 C19"),
- "C10": ("linear-offset cursor analysis over go/ssa (symbolic slice lengths, branch facts, pre-conditions propagated to call sites, post-conditions of successful returns, interval fixpoint for loop counters, phi case split), abort reachability over the VTA call graph against a reasoned assertion table, loop-exit analysis of the receive loops",
-         "Structural necessary conditions: every index / slice / make / fixed-width accessor in the transport and glob functions reachable from the datagram handlers is provably within len for every datagram length and content; no panic, Fatal, unchecked assertion or non-constant division is reachable from the handlers except tabled assertions whose reason excludes peer input; the Serve and listen loops can only be left through their state test.",
+ "C10": ("linear-offset cursor analysis over go/ssa (symbolic slice lengths, branch facts, pre-conditions propagated to call sites, post-conditions of successful returns, interval fixpoint for loop counters, phi case split), abort reachability over the VTA call graph against a reasoned assertion table, loop-exit analysis of the receive loops, ordered-event path analysis of session-state changes against authentication",
+         "Structural necessary conditions: every index / slice / make / fixed-width accessor in the transport and glob functions reachable from the datagram handlers is provably within len for every datagram length and content; no panic, Fatal, unchecked assertion or non-constant division is reachable from the handlers except tabled assertions whose reason excludes peer input; the Serve and listen loops can only be left through their state test; an established session's state (replay window, counters, address) changes only after the datagram authenticated.",
          "Bounds are proven against len (stricter than Go's cap rule). Trusted contracts: io.Reader-shaped Read* return 0<=n<=len(buf); fixed-width binary accessors need their width. Out of scope: cyclist/kravatte/snp numeric kernels (they take lengths from callers), nil-ness, liveness ('still completes a subsequent handshake'). One exempted site (sealPacketLocked AD slice: bytes.Buffer contents not modelled; send path).",
          "DESIGN.md §3 C10"),
  "C11": ("the same cursor analysis over the tubes receive path (with field-length invariants, reaching field values and field-path pre-conditions), abort reachability from Muxer.receiver and the application decoders, loop-exit analysis of Muxer.receiver, range analysis of peer-sized allocations",
@@ -83,7 +87,6 @@ CLAIMED = {
 
 NOT_APPLICABLE = {
  "C13": "Every clause equates output bytes with a reference construction over all operation sequences and lengths; no structural necessary condition exists that is not a frozen-fragment proxy. Needs execution against a reference or a proof (other technique families).",
- "C14": "Equivalence of a ring-bitmap algorithm with a set-based definition over all 64-bit counter histories; the defects in scope are off-by-one errors in run-time shift/mask arithmetic, which no sound static argument in reach bounds. (The protocol around the filter is decided under C03.)",
 }
 
 # properties whose checks are not implemented yet in this revision (kept honest: not claimed)
